@@ -170,6 +170,8 @@ class World:
         xs[0, 0], xs[1, 1] = 0.0, -0.5        # boundary / outside-support values exercise masking paths
         self.inputs[f"x_{m}"] = np.ascontiguousarray(xs)
         self.inputs[f"sample_{m}"] = np.ascontiguousarray(d[rng.integers(0, len(d), 400)] + 0.01 * rng.random((400, 2)))
+        # caller-owned grid limits, one entry deliberately in (upper, lower) order (accepted: min()/max() are taken)
+        self.inputs[f"limits_{m}"] = np.array([[0.0, float(np.max(d[:, 0])) * 1.5], [float(np.max(d[:, 1])) * 1.5, 0.0]])
         return None
 
     def fit(self, m):
@@ -253,6 +255,17 @@ class World:
                                       [ln.get_xydata().ravel() for ax in np.ravel(axes) for ln in ax.get_lines()])
             finally:
                 plt.close("all")
+        if kind == "tiform":
+            # seeded Monte-Carlo IFORM of a TransformedModel (only the two Hs-steepness getters give one)
+            if isinstance(model, vc.TransformedModel):
+                return vc.IFORMContour(model, 0.1, n_points=4).coordinates
+            return vc.IFORMContour(base, 0.1, n_points=4).coordinates
+        if kind == "hdc_limits":
+            # limits given by the caller as a mutable (n_dim, 2) array with one entry in (upper, lower) order
+            lim = self.inputs[f"limits_{m}"]
+            c = vc.HighestDensityContour(base, 0.1, limits=lim, deltas=[float(np.max(lim[0])) / 30, float(np.max(lim[1])) / 30])
+            co = c.coordinates
+            return np.concatenate([np.ravel(np.asarray(a, dtype=float)) for a in (co if isinstance(co, list) else [co])])
         if kind in ("iform3d", "isorm3d", "pdf3d", "sample3d"):
             m3 = rec["model3d"]
             if kind == "iform3d":
@@ -268,7 +281,7 @@ class World:
 
 
 EVALS_ANY = ["pdf", "cdf_icdf", "sample", "marginal_icdf", "iform", "isorm", "hdc", "ds", "and", "or", "design", "plot", "save",
-             "iform3d", "isorm3d", "pdf3d", "sample3d"]
+             "iform3d", "isorm3d", "pdf3d", "sample3d", "tiform", "hdc_limits"]
 EVALS_FITTED = ["plot_dep", "plot_quantiles"]
 
 
@@ -318,8 +331,36 @@ def replay_history(vc, rid, hist, conc, seed, tmp):
             dig = digests.setdefault(hx, len(digests) + 1)
             det = True
         events.append(dict(op=("eval" if op == "eval" else op), m=m, e=(kind if op == "eval" else ""), changed=changed,
-                           inputchanged=bool(inputchanged), dig=dig, deterministic=det, exc=exc))
+                           inputchanged=bool(inputchanged), dig=dig, deterministic=det, exc=exc, twin=False, twinsame=True,
+                           _hx=(hx if det else None)))
         prev_objs, prev_in = objs, inp
+    # history independence: the LAST deterministic evaluation of the history must equal the same evaluation on a
+    # twin object that went through the same new / fit operations but through NO earlier evaluation
+    last = next((i for i in range(len(events) - 1, -1, -1) if events[i]["op"] == "eval" and events[i]["deterministic"]), None)
+    if last is not None and any(ev["m"] == events[last]["m"] and ev["op"] in ("eval", "fit") for ev in events[:last]):
+        m = events[last]["m"]
+        w2 = World(vc, seed)
+        w2.tmp = tmp
+        try:
+            with warnings.catch_warnings():
+                warnings.simplefilter("ignore")
+                for h, ev in zip(hist[:last], events[:last]):
+                    if h["m"] != m or ev["exc"]:
+                        continue
+                    if h["op"] == "new":
+                        w2.new(m, conc[m])
+                    elif h["op"] == "fit":
+                        w2.fit(m)
+                res2 = w2.evaluate(m, events[last]["e"])
+            arr2 = np.ascontiguousarray(np.asarray(res2, dtype=float) if not (isinstance(res2, np.ndarray) and res2.dtype == np.uint8) else res2)
+            hx2 = hashlib.sha1(arr2.tobytes()).hexdigest() + str(arr2.shape)
+            events[last]["twin"] = True
+            events[last]["twinsame"] = bool(hx2 == events[last]["_hx"])
+        except Exception:  # the twin raised although the original did not: also a dependence on the history
+            events[last]["twin"] = True
+            events[last]["twinsame"] = False
+    for ev in events:
+        ev.pop("_hx", None)
     # aliasing between the two models (mutable objects only)
     shared = []
     if len(w.models) == 2:
@@ -352,7 +393,7 @@ def key_of(hist, conc):
 def run(ctx):
     vc = import_virocon()
     ctx.rule = ("TLC enumerates every history of length 6 over {new, fit, eval e1, eval e2} x {A, B}; a seeded subset is replayed with "
-                "A, B from the six predefined getters (same or different getter) and e1, e2 from 19 evaluation kinds (incl. 3-D IFORM / ISORM / pdf / sampling) (pdf, cdf/icdf/pdf of "
+                "A, B from the six predefined getters (same or different getter) and e1, e2 from 21 evaluation kinds (incl. 3-D IFORM / ISORM / pdf / sampling) (pdf, cdf/icdf/pdf of "
                 "the distributions, seeded sampling, marginal_icdf, IFORM, ISORM, HDC, direct sampling / AND / OR with supplied sample, design "
                 "conditions, plots, save); distinct = (history, concretisation); non-trivial = contains an evaluation or a fit")
     ctx.trusted = ["TLC evaluating PurityOps / Trace_C19", "harness fingerprint walk over __dict__ / list / dict / tuple / ndarray / "
@@ -367,7 +408,7 @@ def run(ctx):
     hists = ctx.generate("Purity", "Gen_Purity.cfg", timeout=1200)
     hists = [h for h in hists if sum(1 for x in h if x["op"] != "new") >= 3]
     rng = np.random.default_rng(ctx.seed + 19)
-    nrep = ctx.pick(100, 800)
+    nrep = ctx.pick(80, 800)
     idx = rng.choice(len(hists), size=min(nrep, len(hists)), replace=False)
     tmp = ctx.work / "files"
     tmp.mkdir(exist_ok=True)
